@@ -7,4 +7,10 @@ import Fir.Props.C02
 #print axioms Fir.C02.clip16_eq_clamp
 #print axioms Fir.C02.simd_div8_all
 #print axioms Fir.C02.simd_div8_eq
+#print axioms Fir.C02.simd_div16_faithful
+#print axioms Fir.C02.simd_div16_within_one
+#print axioms Fir.C02.simd_div16_zero_alpha
+#print axioms Fir.C02.simd_div16_source_as_modelled
+#print axioms Fir.C02.reassoc_err
+#print axioms Fir.C02.native_loop_is_comb
 #print axioms Fir.C02.simd_div8_source_as_modelled
